@@ -153,13 +153,31 @@ fn check(text: &str, case: &str, before: usize, rep: &mut Report) {
             rep.count("other_failure");
         }
     }
-    // every quoted span is empty, a keyword, or occurs in the input
+    // every quoted span is empty or occurs in the input ("never quotes text that does not occur in the
+    // input": a keyword the message names is itself a word of the input; a *suggested* keyword is not).
+    // Checked for the quoting styles that cannot be confused with an apostrophe in prose.
     if !text.contains('`') {
         for span in backtick_spans(&msg) {
-            if span.is_empty() || keyword(&span).is_some() || text.contains(&span) {
+            if span.is_empty() || text.contains(&span) {
                 continue;
             }
-            problems.push("quotes-text-not-in-input".to_string());
+            problems.push(if keyword(&span).is_some() { "quotes-keyword-not-in-input".to_string() } else { "quotes-text-not-in-input".to_string() });
+        }
+    }
+    for (a, b) in &PAIRS[4..] {
+        let mut rest = msg.as_str();
+        while let Some(p) = rest.find(*a) {
+            let body = &rest[p + a.len_utf8()..];
+            match body.find(*b) {
+                Some(e) => {
+                    let span = &body[..e];
+                    if !(span.is_empty() || text.contains(span)) {
+                        problems.push("quotes-text-not-in-input".to_string());
+                    }
+                    rest = &body[e + b.len_utf8()..];
+                }
+                None => break,
+            }
         }
     }
     if problems.is_empty() {
@@ -245,8 +263,29 @@ pub fn run(ctx: &Ctx, rep: &mut Report) {
     let n_unknown = ctx.pick(3000, 10_000_000);
     par_cases(ctx, "unknown", n_unknown, rep, |i, rep| {
         let mut r = Rng::for_case(ctx.seed, "unknown", i);
-        let w = match r.below(6) {
-            0 => format!("-{}", ["bogus", "newer", "xdev", "exec", "delete", "zzz", "Name", "PRINT"][r.usize(8)]),
+        let w = match r.below(8) {
+            6 | 7 => {
+                // a mistyped keyword: one character dropped, doubled, replaced or two swapped
+                let k: Vec<char> = VOCAB[r.usize(VOCAB.len())].word.chars().collect();
+                let p = 1 + r.usize(k.len().saturating_sub(1).max(1));
+                let mut v = k.clone();
+                match r.below(4) {
+                    0 if v.len() > 2 && p < v.len() => {
+                        v.remove(p);
+                    }
+                    1 if p < v.len() => v.insert(p, k[p]),
+                    2 if p < v.len() => v[p] = *r.pick(&['q', 'z', 'j', 'e', 'a', 'X']),
+                    _ if p + 1 < v.len() => v.swap(p, p + 1),
+                    _ => v.push('z'),
+                }
+                let w: String = v.into_iter().collect();
+                if keyword(&w).is_some() || ["-a", "-o", "-and", "-or", "!", ",", "(", ")"].contains(&w.as_str()) {
+                    format!("{}q", w)
+                } else {
+                    w
+                }
+            }
+            0 => format!("-{}", ["bogus", "newer", "xdev", "exec", "delete", "zzz", "Name", "PRINT", "xtype", "lname", "mount", "daystart", "newermt", "wholename", "iwholename", "used", "nmae", "prnt", "ok", "execdir", "fprint1", "printf0"][r.usize(22)]),
             1 => ["bogus", "foo", "x", "print", "name", "123", "a.b"][r.usize(7)].to_string(),
             2 => format!("{}x", VOCAB[r.usize(VOCAB.len())].word),
             3 => format!("--{}", ["name", "print", "help"][r.usize(3)]),
